@@ -2,6 +2,7 @@ package props
 
 import (
 	"fmt"
+	"regexp"
 	"sort"
 	"strings"
 
@@ -65,33 +66,6 @@ func C05(p *core.Program, r *core.Report) {
 	}
 
 	// ---- S2
-	// the allow-list is whatever fixed table StripAttributes looks the attribute key up in
-	// (private tables are rendered by content, so the table may be renamed or moved)
-	if sa := mustInl(p, r, "S2", stripKey); sa != nil {
-		c := core.NewCanon(p)
-		var tables []string
-		for _, in := range instrsOf(sa) {
-			if lk, ok := in.(*ssa.Lookup); ok {
-				// the lookup keyed by the attribute name (other tables are keyed by the tag)
-				if s := c.Of(lk.X); (strings.HasPrefix(s, "set‹") || strings.HasPrefix(s, "map‹")) && strings.HasSuffix(c.Of(lk.Index), ".Key") {
-					tables = append(tables, s)
-				}
-			}
-		}
-		if len(tables) != 1 {
-			r.Undecided("S2", "StripAttributes: the allow-list", fmt.Sprintf("expected one lookup in a fixed table, found %d", len(tables)))
-		} else {
-			keys := tableKeys(tables[0])
-			var bad []string
-			for _, k := range keys {
-				if strings.HasPrefix(strings.ToLower(k), "on") {
-					bad = append(bad, k)
-				}
-			}
-			r.Add("S2", "allow-list contains no event handler attribute", "", len(keys) > 150 && len(bad) == 0, fmt.Sprintf("%d allowed attributes; on*: %v", len(keys), bad))
-			r.Stats["allowed_attributes"] = len(keys)
-		}
-	}
 	if sa := mustInl(p, r, "S2", stripKey); sa != nil {
 		// the per-attribute decision: one iteration of the loop that tests the attribute key
 		found := false
@@ -107,16 +81,60 @@ func C05(p *core.Program, r *core.Report) {
 					}
 					return "", false
 				}})
+			// the attribute name tested in this loop: what is compared with "id" or looked up in a
+			// fixed table that contains "id" (strip lists may be chains of tests or tables)
 			subject := ""
+			reKeyIn := regexp.MustCompile(`^in\(((?:set|map)‹.*›),(.*\.Key)\)$`)
 			for a := range atoms {
 				if strings.HasSuffix(a, `.Key == "id"`) {
 					subject = strings.TrimSuffix(a, ` == "id"`)
+				}
+				if m := reKeyIn.FindStringSubmatch(a); m != nil {
+					for _, k := range tableKeys(m[1]) {
+						if k == "id" {
+							subject = m[2]
+						}
+					}
 				}
 			}
 			if subject == "" {
 				continue
 			}
 			found = true
+			// the allow-list: the fixed table whose positive answer every kept attribute has
+			// passed (private tables are rendered by content, so it may be renamed or moved)
+			allowTables := map[string]int{}
+			nKeepPaths := 0
+			for _, pa := range paths {
+				if len(pathEvents(pa)) == 0 {
+					continue
+				}
+				nKeepPaths++
+				for _, l := range pa.Lits {
+					if m := reKeyIn.FindStringSubmatch(l.Atom); m != nil && m[2] == subject && l.Val {
+						allowTables[m[1]]++
+					}
+				}
+			}
+			var allow []string
+			for t, n := range allowTables {
+				if n == nKeepPaths {
+					allow = append(allow, t)
+				}
+			}
+			if len(allow) != 1 {
+				r.Undecided("S2", "StripAttributes: the allow-list", fmt.Sprintf("expected one fixed table that every kept attribute was found in, found %d", len(allow)))
+			} else {
+				keys := tableKeys(allow[0])
+				var bad []string
+				for _, k := range keys {
+					if strings.HasPrefix(strings.ToLower(k), "on") {
+						bad = append(bad, k)
+					}
+				}
+				r.Add("S2", "allow-list contains no event handler attribute", "", len(keys) > 150 && len(bad) == 0, fmt.Sprintf("%d allowed attributes; on*: %v", len(keys), bad))
+				r.Stats["allowed_attributes"] = len(keys)
+			}
 			// an attribute is kept only after the allow-list said yes
 			nKeep, badKeep := 0, 0
 			var witKeep []string
